@@ -570,6 +570,9 @@ impl ExclusivePublication {
         let term_length = self.term_buffer_length();
 
         if self.term_begin_position + term_length as i64 >= self.max_possible_position {
+            // The appender has closed the last term with a padding frame: nothing may be written over it
+            // (a subscriber may already have consumed it), so the publication is now at the end of the position space.
+            self.term_offset = term_length;
             return Err(AeronError::MaxPositionExceeded);
         }
 
